@@ -419,6 +419,31 @@ impl Engine for C14 {
             }
             threads.push(json!({ "gthread": if t == 0 && rng.chance(1, 2) { "root" } else { "child" }, "ops": ops }));
         }
+        // programs compiled at the same moment that share record field names nobody has interned
+        // yet; the fields are read through row-polymorphic accessors (looked up by name at run time)
+        if rng.chance(1, 4) {
+            let tag = rng.below(1_000_000);
+            let nfields = 3 + rng.below(5);
+            for th in threads.iter_mut() {
+                if rng.chance(2, 3) {
+                    let mut order: Vec<usize> = (0..nfields).collect();
+                    if rng.chance(1, 2) {
+                        order.reverse();
+                    }
+                    let mut src = String::new();
+                    for k in &order {
+                        src.push_str(&format!("let get{} r = r.fld{}_{}\n", k, tag, k));
+                    }
+                    let fields: Vec<String> = (0..nfields).map(|k| format!("fld{}_{} = {}", tag, k, k + 1)).collect();
+                    src.push_str(&format!("let recd = {{ {} }}\n", fields.join(", ")));
+                    let sum: Vec<String> = (0..nfields).map(|k| format!("get{} recd", k)).collect();
+                    src.push_str(&format!("{}\n", sum.join(" #Int+ ")));
+                    let ops = th["ops"].as_array_mut().unwrap();
+                    let at = rng.below(ops.len() + 1).min(1);
+                    ops.insert(at, json!({ "op": "burst", "src": src, "imports": [] }));
+                }
+            }
+        }
         // a scenario of its own in 1 of 6 runs: the root thread runs and collects while children
         // are inside long calls whose argument lives in the root's heap
         let root_scenario = rng.chance(1, 6);
